@@ -7,7 +7,7 @@ import tempfile
 
 from ..core import Tally  # noqa: F401
 from .. import s2c, tlc
-from .bloomfam import GEOM, gen_tables, make_hash
+from .bloomfam import GEOM, KEYMAP, gen_tables, make_hash, strategy_fn, strategy_table
 
 ENGINE = "expanding"
 MOD = "vlib.engines.expanding"
@@ -69,6 +69,8 @@ class Ctx:
         self.E, self.R, self.RErr = ExpandingBloomFilter, RotatingBloomFilter, RotatingBloomFilterError
         self.rot = params["rotating"]
         self.keys = sorted(params["keys"])
+        self.strategy = params.get("strategy")
+        self.rk = (lambda k: KEYMAP.get(k, k)) if self.strategy else (lambda k: k)
         self.M, self.K, self.est = params["M"], params["K"], params["est"]
         self.fpr = params["fpr"]
         self.qmax = params.get("qmax", 1)
@@ -114,14 +116,14 @@ class Ctx:
     def observe(self, f):
         subs, footer, wellformed = self.parse(f)
         return {"subs": subs, "footer": footer, "wellformed": wellformed, "total": f.elements_added,
-                "chk": {k: bool(f.check(k)) for k in self.keys}, "in": {k: (k in f) for k in self.keys},
+                "chk": {k: bool(f.check(self.rk(k))) for k in self.keys}, "in": {k: (self.rk(k) in f) for k in self.keys},
                 "expansions": f.expansions, "qsize": f.current_queue_size if self.rot else len(subs)}
 
     def step(self, f, hf, o, st):
         """apply one op; st = harness-side observational bookkeeping from the code's own answers"""
         if o[0] == "add":
-            pre = bool(f.check(o[1]))
-            f.add(o[1], bool(o[2]))
+            pre = bool(f.check(self.rk(o[1])))
+            f.add(self.rk(o[1]), bool(o[2]))
             st["calls"] += 1
             if o[2] or not pre:
                 st["eff"] += 1
@@ -148,6 +150,8 @@ class Ctx:
         table = {k: tuple(v) for k, v in e["pos"].items()}
         hist, o, exp = e["h"], e["a"], e["e"]
         hf = make_hash(table)
+        if self.strategy:
+            hf = None if self.strategy == "fnv" else strategy_fn(self.strategy)
         f = self.new(hf)
         b0 = self.new(hf)
         st = {"calls": 0, "eff": 0, "ins": {k: 0 for k in self.keys}, "man": {k: False for k in self.keys}, "manual": False, "pre": None}
@@ -266,10 +270,15 @@ def profiles(tier, seed, light=False):
             P.append(dict(base, rotating=False, M=M, K=K, est=est, fpr=fpr, H=H, ntables=16, maxdepth=6, channels=["bytes", "path", "fileobj"], maxsubs=5))
             for q in (1, 2, 3):
                 P.append(dict(base, rotating=True, qmax=q, M=M, K=K, est=est, fpr=fpr, H=H, ntables=10, maxdepth=6, channels=["bytes", "path"], maxsubs=5))
+    for i, st in enumerate(["fnv", "sha256", "deco_int"] if tier == "quick" else ["fnv", "md5", "sha256", "deco_int", "deco_bytes", "handwritten"]):
+        P.append(dict(base, rotating=bool(i % 2), qmax=2, M=6, K=2, est=2, fpr=0.3, H=0, ntables=1, maxdepth=5 if tier == "quick" else 6, channels=["bytes"], strategy=st))
     if light and tier == "quick":
         P = [dict(p, ntables=min(p["ntables"], 2)) for p in P]
     for i, p in enumerate(P):
         assert GEOM[(p["M"], p["K"])] == (p["est"], p["fpr"]), p
+        if p.get("strategy"):
+            p["tables"] = [strategy_table(p["strategy"], p["keys"], p["K"], p["M"])]
+            continue
         p["tables"] = gen_tables(p["keys"], p["M"], p["K"], p["H"], p["ntables"], seed * 1000 + 900 + i)
     return P
 
